@@ -16,7 +16,7 @@ package rpc
 //@ func receive(stream io.Reader, rr VTMarshaler, checker func(size uint32) bool) (err error)
 //@   safety bounds
 //@   opt frame=off
-//@   requires stream != nil && rr != nil && stream != rr
+//@   requires stream != nil && rr != nil
 //@   ghost accepted bool = true
 //@   at after call dyn#1: ghost accepted := callresult
 //@   ensures consumed-monotone: stream.rdPos >= old(stream.rdPos) && stream.rdData == old(stream.rdData)
@@ -30,7 +30,7 @@ package rpc
 //@   safety bounds
 //@   opt frame=off
 //@   opt inline=receive
-//@   requires stream != nil && rr != nil && stream != rr
+//@   requires stream != nil && rr != nil
 //@   ensures over-limit-refused-before-body: (old(stream.rdPos) + 4 <= stream.rdEnd && hdr(stream.rdData, old(stream.rdPos)) > max) ==> (err != nil && stream.rdPos == old(stream.rdPos) + 4 && rr.vtDecoded == old(rr.vtDecoded))
 //@   ensures success-within-limit: err == nil ==> (hdr(stream.rdData, old(stream.rdPos)) <= max && stream.rdPos == old(stream.rdPos) + 4 + int(hdr(stream.rdData, old(stream.rdPos))) && rr.vtDecoded == old(rr.vtDecoded) + 1)
 //@   ensures complete-frame-within-limit-is-decoded: (hdr(stream.rdData, old(stream.rdPos)) <= max && old(stream.rdPos) + 4 + int(hdr(stream.rdData, old(stream.rdPos))) <= stream.rdEnd) ==> rr.vtDecoded == old(rr.vtDecoded) + 1
@@ -39,7 +39,7 @@ package rpc
 //@   safety bounds
 //@   opt frame=off
 //@   opt inline=receive
-//@   requires stream != nil && rr != nil && stream != rr
+//@   requires stream != nil && rr != nil
 //@   ensures success-consumes-exactly-one-frame: err == nil ==> (stream.rdPos == old(stream.rdPos) + 4 + int(hdr(stream.rdData, old(stream.rdPos))) && rr.vtDecoded == old(rr.vtDecoded) + 1)
 //@   ensures complete-frame-is-decoded: (old(stream.rdPos) + 4 + int(hdr(stream.rdData, old(stream.rdPos))) <= stream.rdEnd) ==> rr.vtDecoded == old(rr.vtDecoded) + 1
 
@@ -53,7 +53,7 @@ package rpc
 //@   at call Write#1: assert frame-prefix-is-big-endian-length: int(be32(mb[0], mb[1], mb[2], mb[3])) == l
 //@   at call Write#1: assert frame-is-what-is-written: sameBacking(callarg0, mb) && len(callarg0) == len(mb)
 //@   at after call Write#1: ghost wrote := callresult0
-//@   ensures success-means-whole-frame-written: err == nil ==> wrote == 4 + l
+//@   ensures local-success-means-whole-frame-written: err == nil ==> wrote == 4 + l
 
 // ---- C14: what a chord.Server handler's error looks like to the caller of a RemoteNode method
 
